@@ -214,3 +214,39 @@ pub fn quiet<R>(f: impl FnOnce() -> R) -> R {
     IN_OP.with(|c| c.set(old));
     r
 }
+
+/// Start-up self-test of Env's request classification (DESIGN.md §3.2): inside an operation window a
+/// caught panic with a formatted message, a callback that allocates, and reference-model code under a
+/// guard must produce no chunk request and no ledger fault; a real arena operation must produce one.
+pub fn env_selftest(slab_bytes: usize) {
+    let mut envb = ExecEnv::new(slab_bytes);
+    let envp: *mut ExecEnv = &mut *envb;
+    env::attach(envp);
+    unsafe { (*envp).begin_execution() };
+    let r = arena_op(envp, 1, 0, &[], || {
+        {
+            let _g = env::Callback::enter();
+            let v: Vec<u64> = (0..100).collect();
+            let s = format!("callback allocation {}", v.len());
+            drop((v, s));
+        }
+        let x = 41;
+        if x > 0 {
+            // formatted lazily by the panic machinery (after the panic count is raised), like the crate's own asserts
+            panic!("self-test panic with a formatted message: {x} {:>64}", x * 3);
+        }
+    });
+    let n1 = unsafe { (*envp).reqs.len() + (*envp).faults.len() + (*envp).ledger.len() };
+    let r2 = arena_op(envp, 2, 0, &[], || {
+        let b = bumpalo::Bump::new();
+        b.alloc(7u64);
+        drop(b);
+    });
+    let (nreq, nled, nfault) = unsafe { ((*envp).reqs.len(), (*envp).ledger.len(), (*envp).faults.len()) };
+    let live = unsafe { (*envp).live_count(0) };
+    env::attach(std::ptr::null_mut());
+    if r.is_ok() || n1 != 0 || r2.is_err() || nreq != 1 || nled != 1 || nfault != 0 || live != 0 {
+        eprintln!("MACHINERY: Env classification self-test failed (panic caught: {}, stray events {}, arena op ok: {}, requests {}, ledger {}, faults {}, live {})", r.is_err(), n1, r2.is_ok(), nreq, nled, nfault, live);
+        std::process::exit(2);
+    }
+}
